@@ -185,7 +185,7 @@ V("C03", "C03.R13", "c03-incref-in-the-entry-instead", "shroud/wrapp.py",
   'post_call=[wformat("Py_INCREF({py_var});", fmt_arg)]))', 'post_call=[]))', "fire", "py_struct_*_inout_class]:borrowed-return")
 V("C05", "C05.R2", "c05-py-helper-hard-coded", "shroud/wrapp.py",
   '''        name="py_vector_result_list",
-        c_helper="to_PyList_vector_{cxx_T}",''',
+        c_helper="to_PyList_vector_{flat_T}",''',
   '''        name="py_vector_result_list",''', "fire", "py_vector_result_list")
 V("C05", "C05.R2", "c05-py-helper-index-beyond-list", "shroud/wrapp.py",
   '            "{py_var} = {hnamefunc1}\\t({cxx_var},\\t {size_var});",',
@@ -240,16 +240,16 @@ V("C04", "C04.R14", "c04-callback-result-kind-not-imported", "shroud/wrapf.py",
                             rtypemap.f_c_module or rtypemap.f_module)
 """, "", "fire", "result-import")
 V("C16", "C16.R1", "c16-description-unsplit-without-trailing-newline", "shroud/util.py",
-  """            lines = docs["description"].split("\\n")
-            if lines[-1] == "":
-                lines.pop()  # remove trailing newline
-""", """            desc = docs["description"]
-            if desc.endswith("\\n"):
-                lines = docs["description"].split("\\n")
-                lines.pop()  # remove trailing newline
-            else:
-                lines = [desc]
-""", "fire", "description-lines")
+  """        lines = str(text).split("\\n")
+        if lines[-1] == "" and (len(lines) > 1 or not tag):
+            lines.pop()  # remove trailing newline
+""", """        desc = str(text)
+        if desc.endswith("\\n"):
+            lines = desc.split("\\n")
+            lines.pop()  # remove trailing newline
+        else:
+            lines = [desc]
+""", "fire", "-lines")
 V("C17", "C17.R11", "c17-parameter-list-accepts-trailing-comma", "shroud/declast.py",
   """                if self.token.typ == "RPAREN":
                     self.error_msg("Expected a parameter after ',', found {}",
@@ -265,7 +265,11 @@ V("C17", "C17.R12", "c17-language-not-checked", "shroud/ast.py",
             raise RuntimeError("language must be 'c' or 'c++'")
 """, "", "fire", "language:str")
 V("C17", "C17.R12", "c17-declaration-item-not-checked", "shroud/ast.py",
-  """        if not isinstance(subnode, dict):""", """        if False:""", "fire", "subnode:dict")
+  """        if not isinstance(subnode, dict):
+            raise RuntimeError(
+                "declarations must be""", """        if False:
+            raise RuntimeError(
+                "declarations must be""", "fire", "subnode:dict")
 V("C17", "C17.R12", "c17-rank-lower-bound-dropped", "shroud/generate.py",
   """            if attrs["rank"] < 0 or attrs["rank"] > 7:""", """            if attrs["rank"] > 7:""", "fire", "range[0-7]")
 V("C17", "C17.R12", "c17-wrap-as-unchecked", "shroud/ast.py",
@@ -692,7 +696,10 @@ V("C12", "C12.R3", "c12-silent-pop-moved-same-path", "shroud/wrapc.py",
 V("C12", "C12.R4", "c12-reader-strips-both", "shroud/splicer.py",
   "save.append(line.rstrip())", "save.append(line.strip())", "fire", "reader.store")
 V("C12", "C12.R5", "c12-wholesale-update-back", "shroud/main.py",
-  'util.update(splicers, allinput["splicer_code"])', 'splicers.update(allinput["splicer_code"])', "fire", "splicers.update")
+  '''        util.update(splicers,
+                    ast.listify_splicer_code(allinput["splicer_code"]))''',
+  '''        splicers.update(
+            ast.listify_splicer_code(allinput["splicer_code"]))''', "fire", "splicers.update")
 
 # ---------------------------------------------------------------------------
 # C13
@@ -1138,8 +1145,12 @@ V("C08", "C08.R2", "c08-c-name-undocumented-change", "shroud/ast.py",
   '"{C_prefix}{C_name_scope}{underscore_name}{function_suffix}{template_suffix}"',
   '"{C_prefix}{C_name_scope}{underscore_name}{template_suffix}{function_suffix}"', "fire", "docs/reference.rst:C_name_template")
 V("C08", "C08.R3", "c08-overload-suffix-constant", "shroud/generate.py",
-  '                        function.fmtdict.function_suffix = "_{}".format(i)',
-  '                        function.fmtdict.function_suffix = "_{}".format(len(overloads))', "fire", "overload-suffix")
+  '''                    function._overloaded = True
+                    if not function.fmtdict.inlocal("function_suffix"):
+                        function.fmtdict.function_suffix = "_{}".format(i)''',
+  '''                    function._overloaded = True
+                    if not function.fmtdict.inlocal("function_suffix"):
+                        function.fmtdict.function_suffix = "_{}".format(len(overloads))''', "fire", "overload-suffix")
 V("C08", "C08.R3", "c08-overload-ignores-explicit", "shroud/generate.py",
   '''                    if not function.fmtdict.inlocal("function_suffix"):
                         function.fmtdict.function_suffix = "_{}".format(i)''',
@@ -1729,3 +1740,209 @@ V("C01", "C01.R4", "c01-context-dropped-from-c-entry", "shroud/statements.py",
         buf_args=["context"],''',
   '''        name="c_native_*_result_buf",
         buf_args=[],''', "fire", "context")
+
+# ---------------------------------------------------------------------------
+# C17.R13 / R12: typed uses of values of the input file
+# ---------------------------------------------------------------------------
+V("C17", "C17.R13", "c17-yaml-group-not-typed", "shroud/ast.py",
+  '''    for key in ["attrs", "fattrs", "fields", "format", "options",''',
+  '''    for key in ["attrs", "fields", "format", "options",''', "fire", "fattrs")
+V("C17", "C17.R13", "c17-yaml-blank-group-kept", "shroud/ast.py",
+  '''            # A blank group is the same as no group.
+            del ddct[key]''',
+  '''            # A blank group is the same as no group.
+            pass''', "fire", "fstatements")
+V("C17", "C17.R13", "c17-yaml-string-field-not-typed", "shroud/ast.py",
+  '''    for key in ["cxx_header", "namespace", "cpp_if", "library"]:''',
+  '''    for key in ["cxx_header", "namespace", "library"]:''', "fire", "cpp_if")
+V("C17", "C17.R13", "c17-yaml-header-not-typed", "shroud/ast.py",
+  '''    for key in ["cxx_header", "namespace", "cpp_if", "library"]:''',
+  '''    for key in ["namespace", "cpp_if", "library"]:''', "fire", "cxx_header")
+V("C17", "C17.R13", "c17-yaml-group-values-not-typed", "shroud/ast.py",
+  '''    for key in ["attrs", "fstatements"]:
+        # groups of groups''',
+  '''    for key in ["attrs"]:
+        # groups of groups''', "fire", "fstatements[]")
+V("C17", "C17.R13", "c17-yaml-typemap-fields-not-typed", "shroud/ast.py",
+  '''            if not isinstance(fields, dict):
+                raise RuntimeError(
+                    "typemap fields must be a dictionary at line {}"
+                    .format(subnode.get("__line__", "?")))''',
+  '''            if fields is None:
+                raise RuntimeError(
+                    "typemap fields must be a dictionary at line {}"
+                    .format(subnode.get("__line__", "?")))''', "fire", "typemap[].fields")
+V("C17", "C17.R13", "c17-yaml-typemap-entry-not-typed", "shroud/ast.py",
+  '''            if not isinstance(subnode, dict):
+                raise RuntimeError(
+                    "typemap must be a list of dictionaries, found '{}'"
+                    .format(subnode))
+''', '', "fire", "typemap[]")
+V("C17", "C17.R13", "c17-yaml-options-merged-before-check", "shroud/main.py",
+  '''        elif isinstance(allinput["options"], dict):
+            allinput["options"].update(cmdoptions)''',
+  '''        else:
+            allinput["options"].update(cmdoptions)''', "fire", "options")
+V("C17", "C17.R13", "c17-yaml-splicer-names-not-typed", "shroud/main.py",
+  '''            if not isinstance(names, list):
+                raise RuntimeError(
+                    "splicer for '{}' must be a list of file names"
+                    .format(suffix))
+''', '', "fire", "splicer[]")
+V("C17", "C17.R13", "c17-yaml-copyright-lines-not-text", "shroud/ast.py",
+  '''        elif not isinstance(line, str):
+            # A line such as "- 2020" is read as a number.
+            lst[i] = str(line)
+''', '', "fire", "copyright[]")
+V("C17", "C17.R13", "c17-yaml-check-after-use", "shroud/ast.py",
+  '''            key = subnode["type"]
+            fields = subnode["fields"]
+            if not isinstance(fields, dict):
+                raise RuntimeError(
+                    "typemap fields must be a dictionary at line {}"
+                    .format(subnode.get("__line__", "?")))
+            def_types = typemap.get_global_types()
+            ntypemap = def_types.get(key, None)
+            if ntypemap:
+                ntypemap.update(fields)''',
+  '''            key = subnode["type"]
+            fields = subnode["fields"]
+            def_types = typemap.get_global_types()
+            ntypemap = def_types.get(key, None)
+            if ntypemap:
+                ntypemap.update(fields)
+            if not isinstance(fields, dict):
+                raise RuntimeError(
+                    "typemap fields must be a dictionary at line {}"
+                    .format(subnode.get("__line__", "?")))''', "fire", "typemap[].fields")
+V("C17", "C17.R13", "c17-yaml-silent-local-check", "shroud/ast.py",
+  '''        if "fattrs" in kwargs:
+            ast.attrs.update(kwargs["fattrs"])''',
+  '''        if "fattrs" in kwargs:
+            if not isinstance(kwargs["fattrs"], dict):
+                raise RuntimeError("fattrs must be a dictionary")
+            ast.attrs.update(kwargs["fattrs"])''', "silent")
+V("C17", "C17.R13", "c17-yaml-silent-get-spelling", "shroud/main.py",
+  '''        if not allinput.get("options"):
+            allinput["options"] = cmdoptions
+        elif isinstance(allinput["options"], dict):''',
+  '''        if not allinput.get("options", None):
+            allinput["options"] = cmdoptions
+        elif isinstance(allinput.get("options"), dict):''', "silent")
+V("C17", "C17.R12", "c17-rank-typeerror-not-caught", "shroud/generate.py",
+  '''            except (TypeError, ValueError):
+                raise RuntimeError(
+                    "'rank' attribute must have an integer value, not '{}'"''',
+  '''            except ValueError:
+                raise RuntimeError(
+                    "'rank' attribute must have an integer value, not '{}'"''', "fire", "conversion-errors")
+V("C17", "C17.R12", "c17-implied-not-typed", "shroud/generate.py",
+  '''            if not isinstance(expr, str):
+                raise RuntimeError(
+                    "{}:implied attribute must be an expression, found '{}'"
+                    .format(context.linenumber, expr))
+''', '', "fire", "expr")
+V("C17", "C17.R12", "c17-empty-text-last-character", "shroud/ast.py",
+  '''                if value and value[-1] == "\\n":''',
+  '''                if value[-1] == "\\n":''', "fire", "non-empty")
+V("C17", "C17.R12", "c17-silent-empty-text-endswith", "shroud/ast.py",
+  '''                if value and value[-1] == "\\n":''',
+  '''                if value.endswith("\\n"):''', "silent")
+V("C17", "C17.R7", "c17-silent-shortcircuit-membership", "shroud/ast.py",
+  '''    if "cpp_if" in ddct and ddct["cpp_if"] is None:
+        del ddct["cpp_if"]''',
+  '''    if ddct.get("cpp_if", 0) is None:
+        del ddct["cpp_if"]''', "silent")
+
+# ---------------------------------------------------------------------------
+# rows 74-80
+# ---------------------------------------------------------------------------
+V("C17", "C17.G1", "c17-undefined-name", "shroud/wrapp.py",
+  '''            output.append("#error no py_statements getter for {}"
+                          .format(stmt0))''',
+  '''            output.append("#error no py_statements getter for {}"
+                          .format(stmts0))''', "fire", "undefined-name")
+V("C17", "C17.R14", "c17-octal-check-dropped-in-primary", "shroud/declast.py",
+  '''            self.enter("constant")
+            self.check_octal()
+''', '''            self.enter("constant")
+''', "fire", "primary")
+V("C17", "C17.R14", "c17-octal-check-after-token-passed", "shroud/declast.py",
+  '''        self.enter("initializer")
+        self.check_octal()
+        value = self.token.value
+        if self.have("REAL"):
+            value = float(value)
+        elif self.have("INTEGER"):''',
+  '''        self.enter("initializer")
+        value = self.token.value
+        if self.have("REAL"):
+            value = float(value)
+        elif self.have("INTEGER"):
+            self.check_octal()''', "fire", "initializer")
+V("C17", "C17.R14", "c17-silent-octal-inline-try", "shroud/declast.py",
+  '''        self.enter("initializer")
+        self.check_octal()
+        value = self.token.value''',
+  '''        self.enter("initializer")
+        value = self.token.value
+        try:
+            int(value, 8 if value[:1] == "0" and value.isdigit() else 10)
+        except ValueError:
+            if value.isdigit():
+                self.error_msg("Invalid digit in octal constant '{}'", value)''', "silent")
+V("C05", "C05.R20", "c05-template-argument-by-typemap-name", "shroud/wrapc.py",
+  '''                fmt_arg.cxx_T = targ_typemap.cxx_type''',
+  '''                fmt_arg.cxx_T = targ_typemap.name''', "fire", "cxx_T")
+V("C05", "C05.R20", "c05-helper-named-by-type-spelling", "shroud/wrapp.py",
+  '''            fmt_arg.flat_name = arg_typemap.flat_name''',
+  '''            fmt_arg.flat_name = arg_typemap.c_type''', "fire", "flat_name")
+V("C05", "C05.R20", "c05-helper-template-uses-c-type", "shroud/wrapp.py",
+  '''        c_helper="get_from_object_{flat_name}_list",''',
+  '''        c_helper="get_from_object_{c_type}_list",''', "fire", "c_type")
+V("C05", "C05.R20", "c05-flat-t-from-name", "shroud/wrapf.py",
+  '''                fmt.flat_T = ntypemap.flat_name''',
+  '''                fmt.flat_T = ntypemap.name''', "fire", "flat_T")
+V("C08", "C08.R7", "c08-default-variants-before-instantiation", "shroud/generate.py",
+  '''            if method.template_arguments:
+                # Instantiate first: the variants for default arguments
+                # are made from each instantiation.
+                method._overloaded = True''',
+  '''            if method._has_default_arg and method.template_arguments:
+                self.has_default_args(method, ordered_functions)
+            if method.template_arguments:
+                # Instantiate first: the variants for default arguments
+                # are made from each instantiation.
+                method._overloaded = True''', "fire", "not-a-template")
+V("C08", "C08.R7", "c08-instantiation-variants-unnamed", "shroud/generate.py",
+  '''                            if not function.fmtdict.inlocal("function_suffix"):
+                                function.fmtdict.function_suffix = "_{}".format(i)
+                continue''',
+  '''                            pass
+                continue''', "fire", "variants-named")
+V("C08", "C08.R7", "c08-instantiations-without-default-variants", "shroud/generate.py",
+  '''                    if new._has_default_arg:
+                        self.has_default_args(new, ordered_functions)
+                    ordered_functions.append(new)
+                    variants''',
+  '''                    ordered_functions.append(new)
+                    variants''', "fire", "default-variants")
+V("C12", "C12.R9", "c12-splicer-code-merged-raw", "shroud/main.py",
+  '''        util.update(splicers,
+                    ast.listify_splicer_code(allinput["splicer_code"]))''',
+  '''        util.update(splicers, allinput["splicer_code"])''', "fire", "splicer_code")
+V("C16", "C16.R1", "c16-brief-written-whole", "shroud/util.py",
+  '''            self.write_doxygen_lines(output, "\\\\brief ", docs["brief"])''',
+  '''            output.append(self.doxygen_cont + " \\\\brief %s" % docs["brief"])''', "fire", "brief-lines")
+V("C16", "C16.R1", "c16-helper-appends-whole-text", "shroud/util.py",
+  '''        for line in lines:
+            output.append(self.doxygen_cont + " " + tag + line)
+            tag = ""''',
+  '''        output.append(self.doxygen_cont + " " + tag + str(text))''', "fire", "lines")
+V("C16", "C16.R1", "c16-silent-splitlines", "shroud/util.py",
+  '''        lines = str(text).split("\\n")
+        if lines[-1] == "" and (len(lines) > 1 or not tag):
+            lines.pop()  # remove trailing newline''',
+  '''        lines = str(text).splitlines()
+        if not lines and tag:
+            lines = [""]''', "silent")
